@@ -89,7 +89,7 @@ def codegen(overlay_dir, patterns, variant="model", log_path=None, timeout=1800)
             shutil.copy(linked, dst)
             out.append(dict(name=short, pretty=h["pretty_name"], mangled=h["mangled_name"],
                             goto=dst, stubs=[s["original"].replace(" ", "") for s in h["attributes"]["stubs"]]))
-        if variant == "s":
+        if True:
             rc, o2, to = _run(["goto-cc", "-c", os.path.join(VERIF, "models/cprover/mem.c"), "-o", os.path.join(outdir, "cprover_mem.o")], 120)
             if rc != 0:
                 raise RuntimeError("goto-cc of models/cprover/mem.c failed: " + (o2 or ""))
@@ -130,7 +130,7 @@ def prepare(h):
     """goto-cc/goto-instrument steps; idempotent per harness file."""
     g = h["goto"]
     link = [g]
-    if h.get("variant") == "s":
+    if h.get("variant") in ("s", "st") or h.get("memloop") or os.environ.get("VERIF_MEMLOOP"):
         # byte-loop memcpy/memmove (models/cprover/mem.c) instead of CBMC's array-theory versions;
         # compiled once per overlay by codegen()
         link.append(os.path.join(os.path.dirname(g), "cprover_mem.o"))
